@@ -55,10 +55,10 @@ def served_bound(ready, backend):
 class Prop:
     id = "C09"
     lean_module = "MuduoVerif.Props.C09"
-    gen_engines = ["Poller"]
+    gen_engines = ["Poller", "PollerSkel"]
     drivers = ["poller"]
     technique = ("Lean 4 invariant/refinement proofs over a model of Channel + PollPoller + EPollPoller + the loop's dispatch; "
-                 "T1 extraction of every guard/mask/constant; differential run vs. a real EventLoop under both back-ends with "
+                 "T1 extraction of every guard/mask/constant and of the statement skeleton of the 17 modelled functions; differential run vs. a real EventLoop under both back-ends with "
                  "poll/epoll_wait/epoll_ctl interposed; independent trace oracle; epoll-vs-poll comparison")
     level_text = ("Kernel-checked theorems (lean/MuduoVerif/Props/C09.lean) about a model of Channel + PollPoller + EPollPoller + "
                   "EventLoop's dispatch, at full strength for EVERY history of enable/disable read/write, disableAll, remove, "
@@ -82,8 +82,10 @@ class Prop:
                   "operations happen only between polls - the same multiset of callbacks for ANY report order "
                   "(same_callbacks_unordered, same_watch_unordered); order_matters exhibits that a callback operating on another "
                   "channel makes the callbacks depend on the report order. Guards, masks and constants - including the two sites of "
-                  "the F21 repair - are re-extracted from /repo on every run; the hand-written rest of the model is tied to the real "
-                  "classes by a per-step differential run under both back-ends")
+                  "the F21 repair - are re-extracted from /repo on every run, and so is the statement skeleton (significant actions, their "
+                  "order, the nesting of guards and loops) of the 17 modelled functions of EPollPoller.cc, PollPoller.cc, Channel.cc "
+                  "and EventLoop.cc, proved equal to the skeleton the model implements (statement_order_tied); the hand-written rest "
+                  "of the model is tied to the real classes by a per-step differential run under both back-ends")
     level_note = ("Trusted: Lean kernel, vlib/extract.py, the hand-written parts of Model/Poller.lean as far as the differential "
                   "run exercises them, Linux epoll/poll semantics (readiness is input), std::map/std::vector. Not proved, only "
                   "checked on the implementation by the oracle: every ready subscribed channel is served within the event-array "
@@ -102,6 +104,10 @@ class Prop:
     trusted_base = [
         "Lean 4.33.0 kernel; axioms allowed: propext, Classical.choice, Quot.sound",
         "vlib/extract.py (clang-14 JSON AST -> Generated/Poller.lean)",
+        "vlib/gen/pollerskel.py (clang-14 JSON AST -> Generated/PollerSkel.lean: statement skeletons of the 17 modelled functions of "
+        "EPollPoller.cc/PollPoller.cc/Channel.cc/EventLoop.cc; what it leaves out is listed in the generated header) and the reading of "
+        "Model/Poller.lean written down in Model/PollerSkelDecl.lean (incl. its notes A1-A4, D1); the two are proved equal "
+        "(statement_order_tied)",
         "hand-written Model/Poller.lean (control flow between the extracted guards), tied by the differential run",
         "harness/poller_drv.cc, harness/loopstep.h (link-level interposition of poll, epoll_wait, epoll_ctl, eventfd, write)",
         "Linux: epoll_ctl fails with EEXIST/ENOENT exactly on present/absent descriptors; poll ignores negative fds; "
